@@ -117,6 +117,11 @@ func (ck *Checker) shrink(orig *Scenario, v Violation, budget int) (*Scenario, i
 			c.Segments[si].MapMode = 0
 			try(c)
 		}
+		if cur.Segments[si].MidJumpPPM != 0 {
+			c := cloneScenario(cur)
+			c.Segments[si].MidJumpPPM = 0
+			try(c)
+		}
 		if cur.Segments[si].GCPct != 0 {
 			c := cloneScenario(cur)
 			c.Segments[si].GCPct = 0
